@@ -53,7 +53,10 @@ def private_family(prog, root, prefix=None):
                 continue
             for bb, t, names in prog.call_sites(f):
                 for n in names:
-                    if n in fam or n not in prog.fns or not n.startswith(prefix):
+                    # methods of the impl, and trait methods implemented for the same type (a derived Default::default
+                    # that `new` delegates to)
+                    if n in fam or n not in prog.fns or not (n.startswith(prefix) or
+                                                             n.startswith('<' + prefix[:-2] + ' as ')):
                         continue
                     cs = set(c[0] for c in prog.callers(n))
                     if cs and cs <= fam:
@@ -116,7 +119,9 @@ def register_write_requests_reach_if(facts, prog, callees):
     register write produces), the returned value is merged into the IF store.  -> {callee: None | 'what is wrong'}"""
     from .. import absint
     from ..terms import S
-    iofam = private_family(prog, IO_SET)
+    # helpers of IO shared by its entry points (a `request_interrupts(flags)` used by the write and the clock path) are
+    # followed like helpers private to set_byte
+    iofam = private_family(prog, [IO_SET, IO_GET, 'devices::io::IO::run_clock_cycles'])
     opaque = [n for n in prog.fns if n.startswith('devices::') and n not in iofam and
               not n.startswith('devices::interrupts::')]
     ip = absint.Interp(facts, opaque=opaque)
